@@ -16,7 +16,7 @@ def gen_job(scenario, flavour, iters, shards, **kw):
 
 def explorer_plan(scenario, tier, quick_iters, thorough_iters, rule, floor_cells, level="exploration", extra_thorough=None, extra_quick=None, also=None):
     if tier == "quick":
-        jobs = [gen_job(scenario, "native-debug", quick_iters, 8)]
+        jobs = [gen_job(scenario, "native-debug", 2 * quick_iters, 16)]
         jobs += extra_quick or []
     else:
         jobs = [
@@ -77,7 +77,7 @@ def plan(prop, tier):
             level="exploration",
         )
     if prop == "C04":
-        rule = ("(a) exhaustive single-threaded sweep: queue sizes 1,2,4,8 x counters started at 0, 2^31-2..2^31 and 2^32-k for k<=2*size+1, 3*size+3 reads each; "
+        rule = ("(a) single-threaded sweep: queue sizes 1,2,4,8 x counters started at 0, 2^31-2..2^31 and 2^32-k for every k<=2*size+1, and sizes 16,64,1024,4096 x the boundary values k in {0,1,2,size-1,size,size+1,2size-1,2size,2size+1,3size}, 3*size+3 reads each; "
                 "(b) baton-scheduler schedules: 2-4 submitter threads + ring thread (+ simulated SQPOLL kernel thread) on 1-8 entry queues, kernel consuming/completing at every entry, "
                 "seeded random-walk and PCT schedules switching at the a10_verif scheduling points; non-trivial = at least 2 context switches; distinct = hash of the switch sequence + configuration")
         if tier == "quick":
@@ -85,7 +85,7 @@ def plan(prop, tier):
         else:
             jobs = [gen_job("c04", "native-debug", 2500, 16, timeout=3000), gen_job("c04", "native-release", 2500, 16, timeout=3000),
                     gen_job("c04", "asan", 300, 16, timeout=3000), gen_job("c04free", "tsan", 40, 8, timeout=3000)]
-        return dict(jobs=jobs, level="exploration", rule=rule, floor_cells=["wrap-sweep:size=1", "wrap-sweep:size=8", "sq=1", "sq=2", "start=near-2^32", "submitters=2", "sqpoll=true", "sched_switches"],
+        return dict(jobs=jobs, level="exploration", rule=rule, floor_cells=["wrap-sweep:size=1", "wrap-sweep:size=8", "wrap-sweep:size=4096", "sq=1", "sq=2", "start=near-2^32", "submitters=2", "sqpoll=true", "sched_switches"],
                     floor_evaluations=500, assumptions=SIMK_ASSUMPTIONS + ["the scheduler only switches threads at the hook points: interleavings inside other instruction sequences and weak-memory effects are left to the TSan/free-running jobs of the thorough tier"], also=[])
     if prop == "C14":
         rule = ("pure calls on every provided Buf/BufMut/BufSlice/BufMutSlice implementation and wrapper: Vec capacities 0..12 x fill levels x n exhaustively, random larger ones, "
